@@ -341,6 +341,13 @@ package sftp
 //@ ghost var rem uint32
 
 //@ func (*Client).ReadDirContext
+//@   update after call (*Client).opendir#1: ghost.kept = 0
+//@   loop 1 ghost kept
+//@   loop 2 ghost kept
+//@   update after call unmarshalAttrs#1: ghost.kept = ghost.kept + ite(ret2 == nil && !(filename == "." || filename == ".."), 1, 0)
+//@   loop 1 invariant len(entries) == ghost.kept
+//@   loop 2 invariant len(entries) == ghost.kept
+// (exactly the decoded entries whose name is neither "." nor ".." are returned -- dot-files included)
 //@   results entries, err
 //@   vars k int
 //@   ensures 0 <= k && k < len(entries) ==> entries[k] != nil
@@ -2160,6 +2167,7 @@ package sftp
 //@   modifies nothing
 
 //@ ghost var wfail bool
+//@ ghost var kept int
 //@ ghost var lsMode uint32
 //@ ghost var extL0 int
 //@ ghost var wtEOF bool
